@@ -82,6 +82,13 @@ class StateEvaluator:
         co = self.classify(files.get(self.out), by_sha, by_content, self.out)
         cb = self.classify(files.get(self.bak), by_sha, by_content, self.bak)
         cls = (co[0], cb[0])
+        # I1b: a file that is not a complete checkpoint must not load as if it were one (silent corruption:
+        # the user's recovery would resume from it)
+        for name, c in (('output', co), ('backup', cb)):
+            if c[0] == 'loads_unknown':
+                return False, cls, (f'the {name} file loads without error as a results dictionary, but its content '
+                                    f'is that of no save that was ever attempted (partial / corrupt file accepted '
+                                    f'by the loader)')
         if n_done < 1:
             return True, cls, None
         for c in (co, cb):
@@ -402,8 +409,8 @@ def run_history(plan, ref_results, pre_bytes, stats):
             # the final file must be complete too
             ok, cls, detail = ev.check(world.fs.files, n_done)
             if not ok:
-                return {'invariant': 'disk.no_complete_file_after_finish', 'detail': detail, 'facts': facts,
-                        'trace': trace}
+                inv = 'disk.partial_file_loads' if 'loads_unknown' in cls else 'disk.no_complete_file_after_finish'
+                return {'invariant': inv, 'detail': detail, 'facts': facts, 'trace': trace}
             break
         if o['outcome'] == 'exception' and not (isinstance(o['error'], dict) and o['error'].get('injected')):
             err = o['error']
@@ -423,7 +430,8 @@ def run_history(plan, ref_results, pre_bytes, stats):
                 stats['probes']['crash_before_first_completed_save_after_resume'] += 1
         if not ok:
             facts.update({'state_class': list(cls), 'n_done': n_done})
-            return {'invariant': 'disk.no_complete_file', 'detail': detail, 'facts': facts, 'trace': trace}
+            inv = 'disk.partial_file_loads' if 'loads_unknown' in cls else 'disk.no_complete_file'
+            return {'invariant': inv, 'detail': detail, 'facts': facts, 'trace': trace}
         if seg + 1 >= max_segments:
             break
         if cfg['family'] == 'vumps':
@@ -512,7 +520,8 @@ def run_config(item, ctx):
             tear = sv['torn']
             plan = {'cfg': cfg, 'faults': [{'kind': 'kill', 'at_op': sv['k'], 'tear': tear}], 'clock_seed': 0,
                     'from_sweep': True}
-            violations.append({'invariant': 'disk.no_complete_file', 'detail': '[sweep] ' + sv['detail'],
+            violations.append({'invariant': ('disk.partial_file_loads' if 'loads_unknown' in sv['state_class']
+                                             else 'disk.no_complete_file'), 'detail': '[sweep] ' + sv['detail'],
                                'facts': {'family': cfg['family'], 'ext': cfg['ext'], 'segment': 0, 'start': 'fresh',
                                          'fault_kind': 'kill', 'state_class': list(sv['state_class']),
                                          'n_done': sv['n_done'], 'found_by': 'sweep'}, 'plan': plan})
